@@ -577,6 +577,10 @@ def gen_variation(t: Tape, j: int, pool_n: int) -> dict:
         "shuffle_dirs": bool(t.choose(2, "var.shuf")),
         "nasty_history": bool(t.choose(2, "var.nasty")),
         "siblings": t.pick(["none", "same_text", "same_call", "both"], "var.sib"),
+        # unicode battery: every character served in position `first`, then probed in position `then`
+        "unibattery": (None if t.choose(3, "var.ub") else
+                       {"first": t.pick(list(c06_calls.UNI_POSITIONS), "var.ub1"), "then": t.pick(list(c06_calls.UNI_POSITIONS), "var.ub2"),
+                        "chars": sorted({t.choose(len(c06_calls.UNI_CHARS), "var.ubc") for _ in range(6)})}),
         "tape": {"seed": t.choose(1 << 30, "var.tseed")},
     }
     if mode == "threads":
@@ -667,6 +671,12 @@ def run_variation_child(var: dict, calls_by_id: dict, tape_values=None) -> dict:
         hist = hist + NASTY
         hist = tape.shuffle(hist, "hist.order")
     probes = [calls_by_id[i] for i in var["probes"]]
+    ub = var.get("unibattery")
+    if ub:
+        bat = c06_calls.uni_battery()
+        hist = hist + bat[ub["first"]]  # every character, in the first position
+        per = 2
+        probes = probes + [c for i in ub["chars"] for c in bat[ub["then"]][i * per:(i + 1) * per]]
     out: dict = {}
     meta = {"mode": var["mode"]}
     if var["mode"] == "seq":
@@ -734,6 +744,8 @@ def dims_of(var: dict) -> list:
         d.append("history")
     if var.get("siblings", "none") != "none":
         d.append("same-bytes-earlier")
+    if var.get("unibattery"):
+        d.append("unicode-position-battery")
     if var["mode"] != "seq":
         d.append(var["mode"])
     if var["epoch"] != E0 or var.get("jumps"):
@@ -754,6 +766,12 @@ def run_var_case(case: dict, stats: Stats | None = None) -> dict:
     viols = []
     log = [dims_of(var), []]
     compare = [(pid, str(pid)) for pid in var["probes"]]
+    if var.get("unibattery"):
+        bat = c06_calls.uni_battery()
+        for i in var["unibattery"]["chars"]:
+            for c in bat[var["unibattery"]["then"]][i * 2:(i + 1) * 2]:
+                calls_by_id[c["id"]] = c
+                compare.append((c["id"], str(c["id"])))
     if var["mode"] == "threads" and var.get("twin"):
         compare += [(pid, str(700000 + pid)) for pid in var["probes"]]
     for pid, key in compare:
@@ -880,7 +898,8 @@ def run_unit(unit: dict):
                     small["calls"] = [v["call"]]
                     small["history"] = list(case.get("history", [])) + case["calls"][:k]
                 else:
-                    small["var"] = dict(case["var"], probes=[v["call"]["id"]])
+                    pid_ = v["call"]["id"]
+                    small["var"] = dict(case["var"], probes=[pid_] if str(pid_) in case["calls"] else [])
                 viols.append({"clause": v["clause"], "signature": v["signature"], "detail": v["detail"], "case": small})
     return stats, viols
 
@@ -930,7 +949,7 @@ def minimise(case: dict, clause: str, sig: str, budget: int = 40) -> dict:
             else:
                 break
     else:
-        steps = [("history", []), ("nasty_history", False), ("siblings", "none"), ("mode", "seq"), ("jumps", []), ("epoch", E0), ("shuffle_dirs", False), ("cwd", "proj0")]
+        steps = [("history", []), ("nasty_history", False), ("siblings", "none"), ("unibattery", None), ("mode", "seq"), ("jumps", []), ("epoch", E0), ("shuffle_dirs", False), ("cwd", "proj0")]
         for k, simple in steps:
             if cur["var"].get(k) != simple and runs < budget:
                 c = copy.deepcopy(cur)
@@ -941,6 +960,9 @@ def minimise(case: dict, clause: str, sig: str, budget: int = 40) -> dict:
                     cur = c
     # shrink the document line by line
     key = "calls"
+    if cur["kind"] != "grid" and not cur["var"]["probes"]:
+        cur["minimise_runs"] = runs
+        return cur
     call = cur["calls"][0] if cur["kind"] == "grid" else cur["calls"][str(cur["var"]["probes"][0])]
     text = call.get("text") or ""
     lines = text.split("\n")
